@@ -464,6 +464,18 @@ private theorem step_spec (p : Pool) (seen : List Ev) (e : Ev) (hinv : Inv p see
     simp only [step]
     exact inv_updTarget p _ t _ (hinv.mono _)
       (fun c _ => Or.inr ⟨rfl, rfl, rfl, fun s => by simp [specMatches]⟩) ⟨rfl, rfl⟩
+  | peerClose t =>
+    refine ⟨?_, by simp [step]⟩
+    simp only [step]
+    refine inv_updTarget p _ t _ (hinv.mono _) (fun c _ => Or.inr ?_) ?_
+    · split <;> exact ⟨rfl, rfl, rfl, fun s => by simp [specMatches]⟩
+    · split <;> exact ⟨rfl, rfl⟩
+  | responseDone t closeHdr =>
+    refine ⟨?_, by simp [step]⟩
+    simp only [step]
+    refine inv_updTarget p _ t _ (hinv.mono _) (fun c _ => Or.inr ?_) ?_
+    · split <;> exact ⟨rfl, rfl, rfl, fun s => by simp [specMatches]⟩
+    · split <;> exact ⟨rfl, rfl⟩
   | setError t =>
     simp only [step]
     cases ht : p.target t with
@@ -698,6 +710,18 @@ private theorem step_stable (p : Pool) (e : Ev) (i : Nat) (c : Conn) (h : p.conn
     simp only [step]
     refine stable_updTarget p t _ (fun c => ?_) i c h
     exact ⟨fun h => h, fun _ => ⟨rfl, rfl⟩, rfl, rfl, rfl⟩
+  | peerClose t =>
+    simp only [step]
+    refine stable_updTarget p t _ (fun c => ?_) i c h
+    split
+    · exact ⟨fun h => h, fun _ => ⟨rfl, rfl⟩, rfl, rfl, rfl⟩
+    · exact Stable.rfl' c
+  | responseDone t closeHdr =>
+    simp only [step]
+    refine stable_updTarget p t _ (fun c => ?_) i c h
+    split
+    · exact ⟨fun h => h, fun _ => ⟨rfl, rfl⟩, rfl, rfl, rfl⟩
+    · exact Stable.rfl' c
   | setError t =>
     simp only [step]
     cases p.target t with
@@ -773,6 +797,191 @@ theorem pending_poke_misroutes :
     ∃ x ∈ trace p0 [.get 1 sA, .poke (.conn 0) (.addr (some (1, 0))), .result 0 (.ok false)],
       Out.routed 1 sA 0 ∈ x.2 ∧ ∃ c, x.1.conns[0]? = some c ∧ specMatches sA c = false := by
   decide
+
+/-! ### deepening round 3: whole histories with modelled closes -/
+
+/-- the entry `i` is open after every event of the history -/
+def StaysOpen : Pool → List Ev → Nat → Prop
+  | _, [], _ => True
+  | p, e :: es, i => (∃ c', (step p e).1.conns[i]? = some c' ∧ c'.connected = true) ∧ StaysOpen (step p e).1 es i
+
+/-- **open_interval_immutable.** Over a whole history: as long as a pool entry stays open, its address, upstream proxy,
+    TLS flag and transport are what they were — whatever requests, results, closes of other connections, error marks and
+    addon assignments happen in between. -/
+theorem open_interval_immutable (p : Pool) (evs : List Ev) (i : Nat) (c : Conn) (h : p.conns[i]? = some c)
+    (hopen : c.connected = true) (hstay : StaysOpen p evs i) :
+    ∃ c', (run p evs).conns[i]? = some c' ∧ c'.addr = c.addr ∧ c'.via = c.via ∧ c'.tls = c.tls ∧ c'.udp = c.udp := by
+  induction evs generalizing p c with
+  | nil => exact ⟨c, by simpa [run] using h, rfl, rfl, rfl, rfl⟩
+  | cons e es ih =>
+    obtain ⟨⟨c1, hc1, ho1⟩, hrest⟩ := hstay
+    obtain ⟨c', hc', e1, e2, e3, e4⟩ := open_conn_immutable p e i c h hopen
+    rw [hc1] at hc'; injection hc' with hc'; subst hc'
+    obtain ⟨c2, hc2, f1, f2, f3, f4⟩ := ih (step p e).1 c1 hc1 ho1 hrest
+    exact ⟨c2, by simpa [run] using hc2, f1.trans e1, f2.trans e2, f3.trans e3, f4.trans e4⟩
+
+/-- raw state changes of the history never set a connection to OPEN (a closed socket does not come back; connections
+    open through their connection result only) -/
+def NoReopen (evs : List Ev) : Prop := ∀ e ∈ evs, ∀ t r w, e = Ev.setState t r w → (r && w) = false
+
+/-- neither being established, nor connected, nor a tunnel connection -/
+def Dead (c : Conn) : Prop := c.waiting = none ∧ c.connected = false ∧ c.tunnel = false
+
+private theorem dead_updTarget (p : Pool) (t : Target) (f : Conn → Conn) (hf : ∀ c, Dead c → Dead (f c))
+    (i : Nat) (c : Conn) (h : p.conns[i]? = some c) (hd : Dead c) :
+    ∃ c', (p.updTarget t f).conns[i]? = some c' ∧ Dead c' := by
+  have upd : ∀ j, ∃ c', (updAt p.conns j f)[i]? = some c' ∧ Dead c' := by
+    intro j
+    rw [getElem?_updAt]
+    by_cases hij : i = j
+    · simp only [hij, if_true]
+      subst hij
+      exact ⟨f c, by simp [h], hf c hd⟩
+    · simp only [hij, if_false]
+      exact ⟨c, h, hd⟩
+  cases t with
+  | conn j => exact upd j
+  | ctx =>
+    simp only [Pool.updTarget]
+    cases p.ctxIn with
+    | some j => exact upd j
+    | none => exact ⟨c, h, hd⟩
+
+private theorem setAttr_connected (c : Conn) (f : Field) : (setAttr c f).1.connected = c.connected := by
+  cases f <;> simp only [setAttr] <;> split <;> rfl
+
+/-- a dead entry stays dead, whatever happens (raw state changes excepted that would re-open a socket) -/
+private theorem step_dead (p : Pool) (e : Ev) (i : Nat) (c : Conn) (h : p.conns[i]? = some c) (hd : Dead c)
+    (hno : ∀ t r w, e = Ev.setState t r w → (r && w) = false) :
+    ∃ c', (step p e).1.conns[i]? = some c' ∧ Dead c' := by
+  cases e with
+  | get rid s =>
+    simp only [step, getConn, if_true]
+    cases hs : scan p.clientH2 s 0 p.conns with
+    | none => exact ⟨c, getFresh_keeps p rid s i c h, hd⟩
+    | fail j => exact ⟨c, h, hd⟩
+    | reuse j => exact ⟨c, h, hd⟩
+    | wait j =>
+      simp only
+      obtain ⟨_, c0, hc0, _, hw0⟩ := scan_wait _ _ _ _ _ hs
+      simp only [Nat.sub_zero] at hc0
+      rw [getElem?_updAt]
+      by_cases hij : i = j
+      · subst hij
+        rw [h] at hc0; injection hc0 with hc0; subst hc0
+        rw [hd.1] at hw0; simp at hw0
+      · simp only [hij, if_false]
+        exact ⟨c, h, hd⟩
+  | result cid res =>
+    simp only [step, register]
+    cases hc : p.conns[cid]? with
+    | none => exact ⟨c, h, hd⟩
+    | some c0 =>
+      simp only
+      cases hw : c0.waiting with
+      | none => exact ⟨c, h, hd⟩
+      | some ws =>
+        simp only
+        have hne : cid ≠ i := by
+          intro heq; subst heq
+          rw [h] at hc; injection hc with hc; subst hc
+          rw [hd.1] at hw; cases hw
+        have hset : ∀ c1 : Conn, (p.conns.set cid c1)[i]? = some c := by
+          intro c1; simp [List.getElem?_set_ne hne, h]
+        cases res with
+        | fail e => exact ⟨c, hset _, hd⟩
+        | ok h2 =>
+          simp only
+          split
+          · cases ws with
+            | nil => exact ⟨c, hset _, hd⟩
+            | cons w rest => exact ⟨c, regetAll_keeps _ rest i c (hset _), hd⟩
+          · exact ⟨c, hset _, hd⟩
+  | setState t r w =>
+    simp only [step]
+    refine dead_updTarget p t _ (fun c hc => ?_) i c h hd
+    exact ⟨hc.1, by simpa [Conn.connected] using hno t r w rfl, hc.2.2⟩
+  | peerClose t =>
+    simp only [step]
+    refine dead_updTarget p t _ (fun c hc => ?_) i c h hd
+    split
+    · exact ⟨hc.1, by simp [Conn.connected], hc.2.2⟩
+    · exact hc
+  | responseDone t closeHdr =>
+    simp only [step]
+    refine dead_updTarget p t _ (fun c hc => ?_) i c h hd
+    split
+    · exact ⟨hc.1, by simp [Conn.connected], hc.2.2⟩
+    · exact hc
+  | setError t =>
+    simp only [step]
+    cases p.target t with
+    | none => exact ⟨c, h, hd⟩
+    | some c0 =>
+      simp only
+      split
+      · exact ⟨c, h, hd⟩
+      · refine dead_updTarget p t _ (fun c hc => ?_) i c h hd
+        exact ⟨hc.1, hc.2.1, hc.2.2⟩
+  | poke t f =>
+    simp only [step]
+    cases p.target t with
+    | none => exact ⟨c, h, hd⟩
+    | some c0 =>
+      simp only
+      refine dead_updTarget p t _ (fun c hc => ?_) i c h hd
+      exact ⟨by rw [(setAttr_keeps c f).1]; exact hc.1, by rw [setAttr_connected]; exact hc.2.1,
+        by rw [(setAttr_keeps c f).2.1]; exact hc.2.2⟩
+
+/-- **dead_entry_never_routed.** A pool entry that is neither being established nor connected (its attempt failed —
+    with or without an error recorded —, the peer closed it, or mitmproxy closed it after the exchange) is never handed
+    to a request again, in any admissible history whose raw state changes do not re-open sockets. -/
+theorem dead_entry_never_routed (p : Pool) (seen evs : List Ev) (hinv : Inv p seen) (ha : AllAdm p evs)
+    (hno : NoReopen evs) (i : Nat) (c : Conn) (h : p.conns[i]? = some c) (hd : Dead c) :
+    ∀ x ∈ trace p evs, ∀ (rid : Nat) (s : Spec), Out.routed rid s i ∉ x.2 := by
+  induction evs generalizing p seen c with
+  | nil => simp [trace]
+  | cons e es ih =>
+    obtain ⟨ha1, ha2⟩ := ha
+    obtain ⟨s1, s2⟩ := step_spec p seen e hinv ha1
+    obtain ⟨c', hc', hd'⟩ := step_dead p e i c h hd (fun t r w he => hno e (by simp) t r w he)
+    intro x hx rid s hm
+    simp only [trace, List.mem_cons] at hx
+    rcases hx with rfl | hx
+    · obtain ⟨_, c2, hc2, hg⟩ := s2 rid s i hm
+      rw [hc'] at hc2; injection hc2 with hc2; subst hc2
+      have hcon := hg.2.2.1
+      rw [hd'.2.1] at hcon; cases hcon
+    · exact ih (step p e).1 (seen ++ [e]) s1 ha2 (fun e' he' => hno e' (by simp [he'])) c' hc' hd' x hx rid s hm
+
+/-- **failed_attempt_never_routed.** After a connection attempt has failed — TCP refused, TLS handshake failed, or the
+    upstream proxy refused CONNECT (no error is recorded on the connection in that case) — no later request is handed
+    that connection. -/
+theorem failed_attempt_never_routed (p : Pool) (seen evs : List Ev) (hinv : Inv p seen) (cid : Nat) (c : Conn)
+    (ws : List (Nat × Spec)) (setsErr : Bool) (h : p.conns[cid]? = some c) (hw : c.waiting = some ws)
+    (hclosed : c.connected = false) (ha : AllAdm p (.result cid (.fail setsErr) :: evs))
+    (hno : NoReopen evs) :
+    ∀ x ∈ trace (step p (.result cid (.fail setsErr))).1 evs, ∀ (rid : Nat) (s : Spec), Out.routed rid s cid ∉ x.2 := by
+  obtain ⟨ha1, ha2⟩ := ha
+  obtain ⟨s1, _⟩ := step_spec p seen _ hinv ha1
+  have hlt : cid < p.conns.length := (List.getElem?_eq_some_iff.mp h).1
+  have hclean := hinv.wait_clean c (mem_of_getElem? h) ws hw
+  have hpost : (step p (.result cid (.fail setsErr))).1.conns[cid]? =
+      some { c with waiting := none, error := c.error || setsErr } := by
+    simp [step, register, h, hw, List.getElem?_set_self hlt]
+  exact dead_entry_never_routed _ _ evs s1 ha2 hno cid _ hpost
+    ⟨rfl, by simpa [Conn.connected] using hclosed, hclean.2⟩
+
+-- non-vacuity: a CONNECT refused by the proxy (no error recorded), then the same destination again: a new attempt
+example : (trace p0 [.get 1 sA, .result 0 (.fail false), .get 2 sA]).map (·.2) =
+    [[.opened 0, .waitOn 1 0], [.failed 1], [.opened 2, .waitOn 2 2]] := by decide
+-- the modelled closes: an HTTP/2 client's exchange over HTTP/1 closes the upstream connection; the next request opens anew
+example : (trace p0 [.get 1 sA, .result 0 (.ok false), .responseDone (.conn 0) false, .get 2 sA]).map (·.2) =
+    [[.opened 0, .waitOn 1 0], [.routed 1 sA 0], [], [.opened 2, .waitOn 2 2]] := by decide
+example : NoReopen [.get 1 sA, .setState (.conn 0) true false, .peerClose (.conn 0)] := by
+  intro e he t r w heq
+  simp at he
+  rcases he with rfl | rfl | rfl <;> simp_all
 
 end MitmVerif.Props.C08
 
